@@ -24,7 +24,11 @@ type c11Case struct {
 	Via     string   `json:"via,omitempty"`
 	Built   *AEnv    `json:"built,omitempty"`
 	Wire    *Res     `json:"wire,omitempty"`
-	term    string
+	// ping: the requests sent one after the other over the same session (this case is about number Index); the
+	// results are looked at only after the last one has been answered
+	Seq   []*AEnv `json:"seq,omitempty"`
+	Index int     `json:"index,omitempty"`
+	term  string
 }
 
 func wireOf(v interface{}) Res {
@@ -87,13 +91,21 @@ func senderCase(e *AEnv) *c11Case {
 }
 
 // pingVia sends the ping request q over a real established session whose peer auto-replies.
-func pingVia(via string, q *AEnv) (*c11Case, error) {
-	c := &c11Case{Form: "ping", Via: via, Req: q}
-	req := q.lime().(*lime.RequestCommand)
-	ctx, cancel := context.WithTimeout(context.Background(), 5*time.Second)
+func pingVia(via string, qs []*AEnv) ([]*c11Case, error) {
+	ctx, cancel := context.WithTimeout(context.Background(), 8*time.Second)
 	defer cancel()
-	var resp *lime.ResponseCommand
-	var perr error
+	resps := make([]*lime.ResponseCommand, len(qs))
+	perrs := make([]error, len(qs))
+	// the requests one after the other; every response is kept while the later pings are answered
+	pingAll := func(pc interface {
+		ProcessCommand(ctx context.Context, cmd *lime.RequestCommand) (*lime.ResponseCommand, error)
+	}) {
+		for i, q := range qs {
+			pctx, pcancel := context.WithTimeout(ctx, 1500*time.Millisecond)
+			resps[i], perrs[i] = pc.ProcessCommand(pctx, q.lime().(*lime.RequestCommand))
+			pcancel()
+		}
+	}
 	guest := lime.Identity{Name: "0e8e0f2c-6b9c-4d0a-9a4e-2f8f4c1b7a11", Domain: "verif.test"}
 	switch via {
 	case "server-inproc", "server-tcp", "server-ws":
@@ -144,9 +156,7 @@ func pingVia(via string, q *AEnv) (*c11Case, error) {
 		if err != nil || ses.State != lime.SessionStateEstablished {
 			return nil, fmt.Errorf("ping: establish via %s: %v", via, err)
 		}
-		pctx, pcancel := context.WithTimeout(ctx, 1500*time.Millisecond)
-		resp, perr = cc.ProcessCommand(pctx, req)
-		pcancel()
+		pingAll(cc)
 		_ = cc.Close()
 		inprocMu.Lock()
 		_ = srv.Close()
@@ -190,30 +200,33 @@ func pingVia(via string, q *AEnv) (*c11Case, error) {
 		if a.err != nil {
 			return nil, fmt.Errorf("ping: client-side establish: %v", a.err)
 		}
-		pctx, pcancel := context.WithTimeout(ctx, 1500*time.Millisecond)
-		resp, perr = a.sc.ProcessCommand(pctx, req)
-		pcancel()
+		pingAll(a.sc)
 		fctx, fcancel := context.WithTimeout(context.Background(), time.Second)
 		_ = a.sc.FinishSession(fctx)
 		fcancel()
 	default:
 		return nil, fmt.Errorf("unknown ping route %q", via)
 	}
-	var r Res
-	if perr != nil {
-		r = Res{Tag: "err", Msg: perr.Error()}
-	} else {
-		r = resOf(resp, nil)
+	var out []*c11Case
+	for i, q := range qs {
+		c := &c11Case{Form: "ping", Via: via, Req: q, Seq: qs, Index: i}
+		var r Res
+		if perrs[i] != nil {
+			r = Res{Tag: "err", Msg: perrs[i].Error()}
+		} else {
+			r = resOf(resps[i], nil)
+		}
+		c.Wire = &r
+		c.term = coqfmt.App("CPing", q.coqReq(), r.Coq())
+		out = append(out, c)
 	}
-	c.Wire = &r
-	c.term = coqfmt.App("CPing", q.coqReq(), r.Coq())
-	return c, nil
+	return out, nil
 }
 
 func runC11(env *Env) error {
 	env.Header = codecHeader + "Codec.Builders Corr.Codec Corr.C11."
 	env.ShardSize = 300
-	env.Rule = "exhaustive over from/pp/to present or absent (2^3) x 7 methods x builder (success, success with resource of every document kind incl. nested, failure with/without reason) and x 5 events / failed for messages; Sender() on all from/pp combinations; the ping auto-reply through real Server (in-process, TCP, WebSocket) and real Client sessions. Non-trivial: pp present or a resource/reason involved; distinct by printed case."
+	env.Rule = "exhaustive over from/pp/to present or absent (2^3) x 7 methods x builder (success, success with resource of every document kind incl. nested, failure with/without reason) and x 5 events / failed for messages; Sender() on all from/pp combinations; the ping auto-reply through real Server (in-process, TCP, WebSocket) and real Client sessions, three pings per session with the results looked at after the last one. Non-trivial: pp present or a resource/reason involved; distinct by printed case."
 	g := &gen{rng: env.Rng}
 	add := func(c *c11Case, err error) error {
 		if err != nil {
@@ -241,7 +254,20 @@ func runC11(env *Env) error {
 		case "sender":
 			return add(senderCase(rc.Req), nil)
 		case "ping":
-			return add(pingVia(rc.Via, rc.Req))
+			seq := rc.Seq
+			if len(seq) == 0 {
+				seq = []*AEnv{rc.Req}
+			}
+			cs, err := pingVia(rc.Via, seq)
+			if err != nil {
+				return err
+			}
+			for _, c := range cs {
+				if err := add(c, nil); err != nil {
+					return err
+				}
+			}
+			return nil
 		}
 		return nil
 	}
@@ -345,10 +371,19 @@ func runC11(env *Env) error {
 			if mask&4 != 0 {
 				q.To = nodes[2]
 			}
-			if err := add(pingVia(via, q)); err != nil {
+			// followed, on the same session, by pings with other ids and addressing
+			q2 := &AEnv{Kind: "req", ID: fmt.Sprintf("ping-%d-b", mask), Method: "get", URI: normURI("/ping"), From: nodes[2]}
+			q3 := &AEnv{Kind: "req", ID: fmt.Sprintf("ping-%d-c", mask), Method: "get", URI: normURI("/ping"), PP: nodes[0], To: nodes[1]}
+			cs, err := pingVia(via, []*AEnv{q, q2, q3})
+			if err != nil {
 				return err
 			}
-			env.Count("ping-via=" + via)
+			for _, c := range cs {
+				if err := add(c, nil); err != nil {
+					return err
+				}
+				env.Count("ping-via=" + via)
+			}
 		}
 	}
 	return nil
